@@ -212,6 +212,7 @@ def run(ctx):
     translate_staged.check(ctx)       # staged_write_path / staged_write compiled from _file_store.py and linked to Store/Staged.v by a theorem
     unusual_faults(ctx)
     leftover_without_target(ctx)
+    mounted_over_staged_copy(ctx)
     file_size_limit(ctx)
     failing_flush(ctx)
     thorough = not ctx.quick
@@ -487,3 +488,86 @@ def file_size_limit(ctx):
             ctx.fail("size-limit", "%s (%s path) under a file-size limit of 8192 bytes: the write %s; the target %s (%d bytes), its modified time %s; files: %r"
                      % (r["case"], r["path"], r["outcome"], "keeps the previous value" if r["target_is_old"] else "no longer holds the previous value", r["target_len"],
                         "moved" if r["mtime_moved"] else "did not move", r["listing"]), r)
+
+
+def mounted_over_staged_copy(ctx):
+    """A MountedStore whose "remote" is itself a file published with staged_write / staged_write_path: a fault in the middle of the copy
+    leaves the published file with its previous content and modified time, and no staging file - the staging helpers are as atomic inside
+    MountedStore.write as anywhere else."""
+    import os
+    import pathlib
+    import shutil
+    import tempfile
+    import uberjob.stores as st
+    from uberjob.stores._mounted_store import MountedStore
+    m = cc.fs_mod()
+    d = tempfile.mkdtemp(prefix="ujc11m_")
+    try:
+        n = 0
+        for helper in ("staged_write", "staged_write_path"):
+            for kind, cls, old, new in (("text", st.TextFileStore, "old " * 100, "new " * 120), ("json", st.JsonFileStore, ["old"] * 50, ["new"] * 70), ("pickle", st.PickleFileStore, b"o" * 400, b"n" * 500)):
+                for pk in ("str", "pathlib"):
+                    for fault in (True, False):
+                        n += 1
+                        target = os.path.join(d, "published_%d.dat" % n)
+                        tpath = pathlib.Path(target) if pk == "pathlib" else target
+
+                        class Published(MountedStore):
+                            fail = False
+
+                            def copy_from_local(self, local_path):
+                                data = open(local_path, "rb").read()
+                                if helper == "staged_write":
+                                    with m.staged_write(tpath, "wb") as f:
+                                        f.write(data[:len(data) // 2])
+                                        f.flush()
+                                        if Published.fail:
+                                            raise ConnectionError("copy interrupted")
+                                        f.write(data[len(data) // 2:])
+                                else:
+                                    with m.staged_write_path(tpath) as sp:
+                                        with open(sp, "wb") as f:
+                                            f.write(data[:len(data) // 2])
+                                            f.flush()
+                                            if Published.fail:
+                                                raise ConnectionError("copy interrupted")
+                                            f.write(data[len(data) // 2:])
+
+                            def copy_to_local(self, local_path):
+                                shutil.copyfile(target, local_path)
+
+                            def get_modified_time(self):
+                                return m.get_modified_time(tpath)
+                        store = Published(cls)
+                        store.write(old)
+                        os.utime(target, ns=(cc.OLD_NS, cc.OLD_NS))
+                        before = open(target, "rb").read()
+                        Published.fail = fault
+                        try:
+                            store.write(new)
+                            oc = "returned"
+                        except ConnectionError:
+                            oc = "raised"
+                        except BaseException as e:      # noqa
+                            oc = "raised %s" % type(e).__name__
+                        Published.fail = False
+                        after = open(target, "rb").read() if os.path.exists(target) else None
+                        listing = sorted(x for x in os.listdir(d) if x.startswith(os.path.basename(target)))
+                        ctx.case(("c11-mounted-over-staged-copy", helper, kind, pk, fault))
+                        if fault:
+                            if oc != "raised" or after != before or os.stat(target).st_mtime_ns != cc.OLD_NS or len(listing) != 1:
+                                ctx.fail("mounted-staged-copy", "MountedStore publishing through %s (%s store, %s path), the copy interrupted half way: write %s; the published file %s "
+                                         "(%s bytes, was %d), modified time %s; files: %r" % (helper, kind, pk, oc, "keeps its previous content" if after == before else "was CHANGED",
+                                                                                              None if after is None else len(after), len(before),
+                                                                                              "unchanged" if os.path.exists(target) and os.stat(target).st_mtime_ns == cc.OLD_NS else "moved", listing),
+                                         {"helper": helper, "store": kind, "path_kind": pk})
+                        else:
+                            try:
+                                got = store.read()
+                            except BaseException as e:      # noqa
+                                got = "raised %s" % type(e).__name__
+                            if oc != "returned" or got != new or len(listing) != 1:
+                                ctx.fail("mounted-staged-copy", "MountedStore publishing through %s (%s store): an uninterrupted write %s and read gives %r" % (helper, kind, oc, str(got)[:60]),
+                                         {"helper": helper, "store": kind, "path_kind": pk})
+    finally:
+        shutil.rmtree(d, ignore_errors=True)
